@@ -166,13 +166,6 @@ three stages (`select_outgoing`, `align_outgoing`, `pad_alignment_output`) canno
 `WF12` (outgoing UTXO non-empty *or* the sub-overflow repair present; values are u64; inscription
 offsets + dust do not overflow) and a no-overflow bound for padding. -/
 
-/-- the pipeline of `build_transaction` up to and including `pad_alignment_output` -/
-def stages123 (env : Env) (w : Wallet) (r : Request) : Outcome St := do
-  precheck env r
-  let s1 ← selectOutgoing env w r (initial w r)
-  let s2 ← alignOutgoing w r s1
-  padAlignmentOutput env w r s2
-
 theorem c20_no_panic_partial_stages123 (env : Env) (w : Wallet) (r : Request) (wf : WF12 env w r)
     (hv : ∀ u v, w.amounts.lookup u = some v → env.dust r.change0 + v < U64) (s : String) :
     stages123 env w r ≠ .panic s := by
@@ -186,11 +179,6 @@ theorem c20_no_panic_partial_stages123 (env : Env) (w : Wallet) (r : Request) (w
   rcases bind_eq_panic.1 h with h | ⟨s2, h2, h⟩
   · exact alignOutgoing_no_panic wf h1 s h
   · exact padAlignmentOutput_no_panic wf hv h1 h2 s h
-
-/-- the pipeline up to and including `add_value` (coin selection for value) -/
-def stages1234 (env : Env) (w : Wallet) (r : Request) : Outcome St := do
-  let s3 ← stages123 env w r
-  addValue env w r s3
 
 /-- Stages 1–4 never panic when, in addition, the wallet total is below 2^64 (the budget
 invariant `outputs + unused utxos ≤ wallet total` excludes every `Amount` overflow, the
